@@ -123,6 +123,12 @@ var intercept = []struct{ name, src string }{
 while true do pcall(function() local c <close> = closer() while true do end end) end`},
 	{"close-handler-in-coroutine", `local function closer() return setmetatable({}, {__close = function() emit("close-ran") end}) end
 local co = coroutine.wrap(function() local c <close> = closer() while true do end end) co() emit("unreachable")`},
+	{"close-handler-loops-at-coroutine-close", `local function closer() return setmetatable({}, {__close = function() emit("close-entered") while true do end end}) end
+while true do local co = coroutine.create(function() local c <close> = closer() coroutine.yield() end) coroutine.resume(co) emit("survived-close", pcall(coroutine.close, co)) end`},
+	{"close-handler-loops-at-coroutine-error", `local function closer() return setmetatable({}, {__close = function() emit("close-entered") while true do end end}) end
+while true do local co = coroutine.create(function() local c <close> = closer() error("x") end) emit("survived-resume", pcall(coroutine.resume, co)) end`},
+	{"close-handler-bulk-at-coroutine-close", `local function closer() return setmetatable({}, {__close = function() emit("close-entered") return #("x"):rep(1e7, ",") end}) end
+while true do local co = coroutine.wrap(function() local c <close> = closer() coroutine.yield() error("y") end) co() emit("survived-second", pcall(co)) end`},
 	{"gc-handler-loops", `setmetatable({}, {__gc = function() emit("gc-ran") while true do end end}) while true do local t = {} end`},
 	{"nested-callcontext-bigger", `while true do runtime.callcontext({kill = {cpu = 1e15}}, function() while true do end end) emit("outlived-nested-context") end`},
 	{"nested-callcontext-bigger-bulk-request", `while true do runtime.callcontext({kill = {cpu = 1e15}}, function() return #("x"):rep(1e7, ",") end) emit("outlived-nested-context") end`},
